@@ -125,7 +125,11 @@ pub fn render(s: &TypeSpec) -> Option<Rendered> {
 }
 
 pub fn run(ctx: &Ctx) -> i32 {
-    let b = Behaviour {
+    crate::props::behave::run(ctx, &behaviour())
+}
+
+pub fn behaviour() -> Behaviour {
+    Behaviour {
         prop: "C08",
         rule: "structs, enums and unions with Default educed: every position of the variant / union-field marker, per-field expressions in every spelling \
                (Default = lit, Default(expression = e), expr = e, expression(e), expr(e)) over literal kinds (int, float, bool, char, str, byte, byte string, \
@@ -140,6 +144,5 @@ pub fn run(ctx: &Ctx) -> i32 {
         thorough: 10000,
         batch: 25,
         assumptions: &["a suffixed numeric literal on a primitive numeric field of another type is deliberately not generated (see DESIGN.md)"],
-    };
-    crate::props::behave::run(ctx, &b)
+    }
 }
